@@ -39,6 +39,10 @@ type CutResult struct {
 	Edges     map[[2]int]bool // traversed CFG edges (block indices), filled when no sink is given
 }
 
+// skipStartSink: a traversal that starts in the middle of a function does not
+// count its own start block as a reached sink.
+const skipStartSink = true
+
 type cutState struct {
 	block *ssa.BasicBlock
 	env   string // canonical encoding of resolved phis
@@ -56,6 +60,12 @@ func CutReach(p *Prog, fn *ssa.Function, g Guard, sinks ...*ssa.BasicBlock) CutR
 // CutReachAvoid is CutReach with, in addition, a set of blocks that count as
 // "passed through a required effect": they are never entered.
 func CutReachAvoid(p *Prog, fn *ssa.Function, g Guard, avoid map[*ssa.BasicBlock]bool, sinks ...*ssa.BasicBlock) CutResult {
+	return CutReachFrom(p, fn, nil, g, avoid, sinks...)
+}
+
+// CutReachFrom starts the traversal at block start (the function entry when
+// nil) with no phi resolved.
+func CutReachFrom(p *Prog, fn *ssa.Function, start *ssa.BasicBlock, g Guard, avoid map[*ssa.BasicBlock]bool, sinks ...*ssa.BasicBlock) CutResult {
 	var res CutResult
 	if fn == nil || len(fn.Blocks) == 0 {
 		return res
@@ -82,11 +92,14 @@ func CutReachAvoid(p *Prog, fn *ssa.Function, g Guard, avoid map[*ssa.BasicBlock
 		seen[st] = true
 		nodes = append(nodes, node{st, env, parent, via})
 	}
-	push(fn.Blocks[0], map[*ssa.Phi]ssa.Value{}, -1, "entry")
+	if start == nil {
+		start = fn.Blocks[0]
+	}
+	push(start, map[*ssa.Phi]ssa.Value{}, -1, "start")
 	for qi := 0; qi < len(nodes); qi++ {
 		n := nodes[qi]
 		b := n.st.block
-		if isSink[b] {
+		if isSink[b] && !(qi == 0 && start != fn.Blocks[0] && skipStartSink) {
 			res.Reachable = true
 			// reconstruct
 			var path []string
